@@ -241,10 +241,14 @@ PROPS = {
                    'queryDescriptionFor, namesAndDescriptions(all=True), Element.queryTaggedValue, InterfaceClass.queryTaggedValue and '
                    'getTaggedValue are verified from their real bodies against ONE specification, "the first interface along __iro__ '
                    'that defines the name/tag directly", for all interface tables and resolution orders; hence they agree with each '
-                   'other. names(all=True)/iter, getTaggedValueTags, validateInvariants and "follows later changes of __bases__" (memo '
-                   'reset by changed()) are checked bounded on random DAGs with re-basing and a warm memo, labelled bounded.',
-        level_note='names/iter (recursion over __bases__), getTaggedValueTags, validateInvariants and the re-basing clause are bounded; '
-                   'memo validity is a precondition established by changed() (C02).',
+                   'other. getTaggedValueTags returns exactly the tags some interface of __iro__ carries directly; validateInvariants '
+                   'runs every invariant of every interface of __iro__ in order (ghost call log), collects every failure in a given '
+                   'list and raises Invalid exactly when something failed (two induction lemmas); names(all=True) (and hence iter) is '
+                   'the own names plus the names of every base (recursion through its own contract). That the names of the ancestors '
+                   'are the names along __iro__ (C03: __iro__ lists exactly the ancestors) and "follows later changes of __bases__" '
+                   '(memo reset by changed(), C02) are checked bounded on random DAGs with re-basing and a warm memo.',
+        level_note='names() is verified as a recursion equation over __bases__, its closed form rests on C03; the re-basing clause is '
+                   'bounded; memo validity is a precondition established by changed() (C02).',
         explanation='accessors proved against one first-definer-along-__iro__ specification; remaining accessors and re-basing bounded',
     ),
     'C16': dict(
